@@ -25,18 +25,19 @@ inductive SampleBank | none | normal | soft | drum
 def SampleBank.idx : SampleBank → Nat
   | .none => 0 | .normal => 1 | .soft => 2 | .drum => 3
 
-/-- `<SampleBank as FromStr>::from_str`. -/
+/-- `<SampleBank as FromStr>::from_str`. (Inside the `SampleBank`/`CountdownType` namespaces a bare
+`none` would resolve to the constructor `SampleBank.none`, hence the explicit `Option.none`.) -/
 def SampleBank.parse (s : Str) : Option SampleBank :=
   if s == str "0" || s == str "None" then some .none
   else if s == str "1" || s == str "Normal" then some .normal
   else if s == str "2" || s == str "Soft" then some .soft
   else if s == str "3" || s == str "Drum" then some .drum
-  else none
+  else Option.none
 
 /-- `<SampleBank as TryFrom<i32>>::try_from`. -/
 def SampleBank.ofInt (n : Int) : Option SampleBank :=
   if n = 0 then some .none else if n = 1 then some .normal
-  else if n = 2 then some .soft else if n = 3 then some .drum else none
+  else if n = 2 then some .soft else if n = 3 then some .drum else Option.none
 
 inductive CountdownType | none | normal | halfSpeed | doubleSpeed
   deriving DecidableEq, Repr, Inhabited
@@ -50,7 +51,7 @@ def CountdownType.parse (s : Str) : Option CountdownType :=
   else if s == str "1" || s == str "Normal" then some .normal
   else if s == str "2" || s == str "Half speed" then some .halfSpeed
   else if s == str "3" || s == str "Double speed" then some .doubleSpeed
-  else none
+  else Option.none
 
 /-- `util::Pos` over the f32-side scalar `P`. -/
 structure Pos (P : Type) where
